@@ -1,7 +1,8 @@
 (* C12 — Checkpoints restore to exactly the checkpointed state.
    Only statements; proofs are in Ckpt/*.v.  Model: Ckpt/Model.v. *)
 From Verif Require Import Lib.Base Mkvs.Trie Mkvs.TrieProofs Mkvs.HashProofs
-  Ckpt.Model Ckpt.Proofs Ckpt.ParProofs Ckpt.RestoreProofs Ckpt.Examples Ckpt.Main.
+  Ckpt.Model Ckpt.Proofs Ckpt.ParProofs Ckpt.RestoreProofs Ckpt.Examples Ckpt.Main Ckpt.Stack Ckpt.StackProofs Gen.CkptConsts.
+From Coq Require Import Permutation.
 
 (* sequential chunker: the key runs visited by the chunks, concatenated, are
    exactly the contents in order (no key twice, none missing) *)
@@ -114,3 +115,73 @@ Theorem done_only_after_every_import : forall H Hd decode root digests st0 evs i
   forall j, (j < length digests)%nat -> j = i \/ In j (snd g).
 Proof. exact done_only_after_every_import_l. Qed.
 Print Assumptions done_only_after_every_import.
+
+(* G: the constants read from the source are the ones the statements were
+   written for (depth limit 128 with a strict comparison, 10 split iterations,
+   the sequential chunker continues while Size() < chunkSize, V0 proofs, node
+   prefixes and the widths of the length fields that enter the size estimate) *)
+Theorem gen_consts_expected :
+  max_proof_depth = 128 /\ proof_depth_guard_is_gt = true /\ split_iters = 10 /\
+  seq_continue_is_lt = true /\ chunk_proof_version = 0 /\
+  (prefix_leaf, prefix_internal, prefix_nil) = (0, 1, 2) /\ depth_size = 2 /\ value_length_size = 4.
+Proof. exact Main.gen_consts_expected_l. Qed.
+Print Assumptions gen_consts_expected.
+
+(* every chunk of the parallel chunker visits at least one key *)
+Theorem par_runs_nonempty : forall size threads t,
+  wf t -> t <> Nil -> Forall (fun r => r <> []) (fst (par_runs size threads t)).
+Proof. exact Main.par_runs_nonempty_l. Qed.
+Print Assumptions par_runs_nonempty.
+
+(* createChunks runs the tasks of a lock-step round concurrently: in whatever
+   order they run (any permutation of the slots) every slot gets the same
+   chunk and the same successor task *)
+Theorem round_order_irrelevant : forall size sched ts,
+  Permutation sched (seq 0 (length ts)) ->
+  round_sched size sched ts = (map (advance size) ts, map (task_run size) ts).
+Proof. exact round_order_irrelevant_l. Qed.
+Print Assumptions round_order_irrelevant.
+
+(* whole restore histories: for ANY sequence of StartRestore / AbortRestore /
+   RestoreChunk events (genuine, corrupt, duplicate, out-of-order deliveries,
+   aborted and restarted restores) into an empty database, with the metadata
+   of the checkpoint of a well-formed tree: what is visible is always part of
+   the checkpointed contents, and the delivery that ends the restore (done)
+   leaves exactly the checkpointed contents -- or the digest function collides *)
+Theorem restore_history_exact : forall H Hd decode enc,
+  (forall c, decode (enc c) = Some c) ->
+  forall size threads t, wf t -> forall evs,
+  let cs := chunks H size threads t in
+  let digests := map (fun c => Hd (enc c)) cs in
+  let s := rrun H Hd decode (root_hash H t) digests (mkr false [] []) evs in
+  (incl (db s) (contents t) /\
+   forall i b s', rstep H Hd decode (root_hash H t) digests s (EChunk i b) = (s', ROk) ->
+                  active s' = false -> db s' = contents t \/ collision Hd)
+  \/ collision Hd.
+Proof. exact restore_history_exact_l. Qed.
+Print Assumptions restore_history_exact.
+
+(* second model layer: the port of the parallel chunker's subtree{path,pending}
+   stack machine with the proof builder's included set (Ckpt/Stack.v).
+   PARTIAL: splitTasks (10 iterations, early return), the lock-step rounds and
+   the filtering of finished tasks preserve any simulation R between stack
+   tasks and count tasks, so the port then produces exactly the chunks and
+   runs of the count abstraction (to which chunks_cover, restore_any_order,
+   metadata_deterministic apply).  MISSING: a proof that the concrete
+   representation relation satisfies the three one-step premises (one
+   nextChunk incl. trim, one split, hasNext); these are validated by
+   evaluation only (Stack.run_both on every correspondence case). *)
+Theorem par_stack_refines_count_partial : forall H t size (R : stask -> task -> Prop),
+  (forall s c, R s c -> Forall2 R (s_split s) (split c)) ->
+  (forall s c, R s c ->
+     exists s', s_next_chunk H t size s =
+                Some (chunk_of H (inrun (task_run size c)) t, task_run size c, s') /\
+                R s' (advance size c)) ->
+  (forall s c, R s c -> s_finished s = negb (unfinished c)) ->
+  forall threads, t <> Nil -> R (new_stask t) (mk t 0 0%nat) ->
+  exists res,
+    s_par H size threads t = Some (res, []) /\
+    map snd res = fst (par_runs size threads t) /\
+    map fst res = par_chunks H size threads t.
+Proof. exact par_stack_refines_count_partial_l. Qed.
+Print Assumptions par_stack_refines_count_partial.
